@@ -19,7 +19,8 @@ package main
 //        (body, function, kind, channel, cancelAlt, capLowerBound)
 //      kind    = select | send | recv | range | wgwait
 //      channel = printed channel expression (select: the comm clauses joined by '|')
-//      cancelAlt = (select only) one comm clause receives from `<x>.Done()` or from a field named `done`
+//      cancelAlt = (select only) one comm clause receives from `<x>.Done()` (or a local alias of it), from a field
+//                  named `done`, or is `v, ok := <-ch` with `if !ok { … return }` (ends when the channel is closed)
 //      capLowerBound = for send/recv: least capacity over the `make(chan …)` sites that create a channel
 //                      of that name (same function, else methods of the same receiver type, else file,
 //                      else package), `len(…)` read as 0; none when no site is found
@@ -639,6 +640,34 @@ func (w *c07walker) walk(n ast.Node, sc c07scope, fn string) {
 		return
 	}
 	file := w.p.fileOf[sc.fd]
+	// local aliases of a cancellation channel: `ctxDone := ctx.Done()` (tracer.run sets it to nil once seen)
+	doneAlias := map[string]bool{}
+	scanAlias := func(root ast.Node) {
+		if root == nil {
+			return
+		}
+		ast.Inspect(root, func(x ast.Node) bool {
+			if as, ok := x.(*ast.AssignStmt); ok {
+				for i, l := range as.Lhs {
+					if id, ok := l.(*ast.Ident); ok && i < len(as.Rhs) && c07isDoneCall(as.Rhs[i]) {
+						doneAlias[id.Name] = true
+					}
+				}
+			}
+			return true
+		})
+	}
+	if sc.fd != nil {
+		scanAlias(sc.fd.Body)
+	}
+	scanAlias(n)
+	isCancel := func(e ast.Expr) bool {
+		if c07isCancelChan(e) {
+			return true
+		}
+		id, ok := e.(*ast.Ident)
+		return ok && doneAlias[id.Name]
+	}
 	inLoop := map[*ast.SelectStmt]bool{}
 	ast.Inspect(n, func(x ast.Node) bool {
 		if fs, ok := x.(*ast.ForStmt); ok {
@@ -686,25 +715,63 @@ func (w *c07walker) walk(n ast.Node, sc c07scope, fn string) {
 							ce = u.X
 						}
 					}
+					// `v, ok := <-ch` … `if !ok { …; return }`: the loop ends when the channel is closed — for a
+					// tracer subscription that is what the tracer does when it terminates: a cancellation alternative
+					if len(s.Lhs) == 2 && ce != nil {
+						if okId, isId := s.Lhs[1].(*ast.Ident); isId {
+							for _, st := range cc.Body {
+								ast.Inspect(st, func(y ast.Node) bool {
+									ifs, ok := y.(*ast.IfStmt)
+									if !ok {
+										return true
+									}
+									if u, ok := ifs.Cond.(*ast.UnaryExpr); ok && u.Op == token.NOT {
+										if id, ok := u.X.(*ast.Ident); ok && id.Name == okId.Name {
+											ast.Inspect(ifs.Body, func(z ast.Node) bool {
+												if _, ok := z.(*ast.ReturnStmt); ok {
+													cancel = true
+												}
+												return true
+											})
+										}
+									}
+									return true
+								})
+							}
+						}
+					}
 				}
 				if ce != nil {
-					if dir == "recv" && c07isCancelChan(ce) {
+					if dir == "recv" && isCancel(ce) {
 						cancel = true
 						// a cancellation clause that neither returns nor jumps re-enters the select with the
 						// closed channel still ready: the loop polls hot until something else ends it
 						leaves := false
+						aliasName := ""
+						if id, ok := ce.(*ast.Ident); ok {
+							aliasName = id.Name
+						}
 						for _, st := range cc.Body {
 							ast.Inspect(st, func(y ast.Node) bool {
-								switch y.(type) {
+								switch yv := y.(type) {
 								case *ast.FuncLit:
 									return false
 								case *ast.ReturnStmt, *ast.BranchStmt:
 									leaves = true
+								case *ast.AssignStmt:
+									// `alias = nil`: the case is disarmed, the loop does not come back to it
+									for i, l := range yv.Lhs {
+										if id, ok := l.(*ast.Ident); ok && aliasName != "" && id.Name == aliasName && i < len(yv.Rhs) {
+											if r, ok := yv.Rhs[i].(*ast.Ident); ok && r.Name == "nil" {
+												leaves = true
+											}
+										}
+									}
 								}
 								return true
 							})
 						}
-						if !leaves && inLoop[v] && exprString(ce) == "ctx.Done()" {
+						if !leaves && inLoop[v] && (exprString(ce) == "ctx.Done()" || aliasName != "") {
 							w.hot = append(w.hot, [2]string{w.body, fn})
 						}
 					}
@@ -895,15 +962,36 @@ func factsC07() {
 							}
 							w := &c07walker{p: p, visited: map[ast.Node]bool{}, handles: map[string]bool{}}
 							registers := false
-							regOn := ""
-							subst := map[string]string{} // parameter of the function that returns the body ↦ argument at the go site
+							regOns := map[string]bool{}
+							// simple local aliases in the site's function: `tracer := sp.wr.tracer`
+							alias := map[string]string{}
+							ast.Inspect(fd.Body, func(y ast.Node) bool {
+								if as, ok := y.(*ast.AssignStmt); ok && as.Tok == token.DEFINE && len(as.Lhs) == len(as.Rhs) {
+									for i, l := range as.Lhs {
+										if id, ok := l.(*ast.Ident); ok {
+											if se, ok := as.Rhs[i].(*ast.SelectorExpr); ok {
+												alias[id.Name] = exprString(se)
+											}
+										}
+									}
+								}
+								return true
+							})
+							unalias := func(e string) string {
+								if a, ok := alias[e]; ok {
+									return a
+								}
+								return e
+							}
+							subst := map[string]string{} // parameter of the body's function ↦ argument at the go site
 							for _, r := range regs {
 								if r.pos < v.Pos() {
-									regOn = r.on
+									handed := false
 									// passed as an argument …
 									for _, a := range v.Call.Args {
 										if id, ok := a.(*ast.Ident); ok && id.Name == r.name {
 											registers = true
+											handed = true
 										}
 									}
 									// … or captured by the literal
@@ -911,10 +999,14 @@ func factsC07() {
 										ast.Inspect(l.Body, func(y ast.Node) bool {
 											if id, ok := y.(*ast.Ident); ok && id.Name == r.name {
 												registers = true
+												handed = true
 												w.handles[r.name] = true
 											}
 											return true
 										})
+									}
+									if handed {
+										regOns[unalias(r.on)] = true
 									}
 								}
 							}
@@ -960,6 +1052,15 @@ func factsC07() {
 								if len(cds) == 1 {
 									body = pk.prefix + c07funcName(cds[0])
 									w.body = body
+									k2 := 0
+									for _, fl := range cds[0].Type.Params.List {
+										for _, nm := range fl.Names {
+											if k2 < len(v.Call.Args) {
+												subst[nm.Name] = exprString(v.Call.Args[k2])
+											}
+											k2++
+										}
+									}
 									w.walkFunc(cds[0])
 									// function literals handed to the goroutine run inside it
 									for _, a := range v.Call.Args {
@@ -981,16 +1082,17 @@ func factsC07() {
 									return e
 								}
 								siteRecv, _ := c07recv(fd)
-								want := norm(regOn, siteRecv)
 								match := false
 								for e := range w.sendOn {
 									if se, ok := subst[e]; ok {
-										e = norm(se, siteRecv)
+										e = norm(unalias(se), siteRecv)
 									} else {
-										e = norm(e, w.recvOf)
+										e = norm(unalias(e), w.recvOf)
 									}
-									if e == want {
-										match = true
+									for on := range regOns {
+										if e == norm(on, siteRecv) {
+											match = true
+										}
 									}
 								}
 								if !match {
@@ -1178,6 +1280,39 @@ func factsC07() {
 			continue
 		}
 		fromBackground := map[string]bool{}
+		tied := false
+		ast.Inspect(fd.Body, func(n ast.Node) bool {
+			g, ok := n.(*ast.GoStmt)
+			if !ok {
+				return true
+			}
+			l, ok := g.Call.Fun.(*ast.FuncLit)
+			if !ok {
+				return true
+			}
+			ast.Inspect(l.Body, func(m ast.Node) bool {
+				cc, ok := m.(*ast.CommClause)
+				if !ok || cc.Comm == nil {
+					return true
+				}
+				var ce ast.Expr
+				if es, ok := cc.Comm.(*ast.ExprStmt); ok {
+					if u, ok := es.X.(*ast.UnaryExpr); ok {
+						ce = u.X
+					}
+				}
+				if ce == nil || !c07isDoneCall(ce) || exprString(ce) == "ctx.Done()" {
+					return true
+				}
+				for _, st := range cc.Body {
+					if callPos(st, "cancel") != token.NoPos {
+						tied = true
+					}
+				}
+				return true
+			})
+			return true
+		})
 		ast.Inspect(fd.Body, func(n ast.Node) bool {
 			switch v := n.(type) {
 			case *ast.AssignStmt:
@@ -1192,14 +1327,14 @@ func factsC07() {
 			case *ast.CallExpr:
 				if exprString(v.Fun) == "tracing.NewTracer" && len(v.Args) == 1 && detached == "" {
 					a := exprString(v.Args[0])
-					detached = boolLit(fromBackground[a] || a == "context.Background()" || a == "context.TODO()")
+					detached = boolLit((fromBackground[a] || a == "context.Background()" || a == "context.TODO()") && !tied)
 				}
 			}
 			return true
 		})
 	}
 	add("C07", "subProcessTracerDetached", "Bool", detached,
-		"subprocess.go newSubProcess: the inner tracer runs under a context derived from context.Background(), not from the instance's")
+		"subprocess.go newSubProcess: the inner tracer runs under a context derived from context.Background() and no goroutine of newSubProcess cancels it when another Done() channel (the parent tracer's) fires")
 	add("C07", "taskRequestCarriesRunCtx", "Bool", ctxFact,
 		"task_generic.go genericTask.run: the TaskTrace is built with .Context(ctx), ctx being the run loop's context")
 }
